@@ -161,6 +161,10 @@ class Harness:
     def canon(self, w):
         return self.cn(w.model, [w.objs[k] for k, _, _ in self.pool])
 
+    def refstate(self, w):
+        # registration order and scheduling order; sequence numbers only matter relative to each other
+        return (tuple(k for _, _, k in w.ref), tuple(k for _, _, k in sorted(w.ref, key=lambda r: (-r[0], r[1]))))
+
     def outcome(self, w):
         return w.last
 
